@@ -5,6 +5,9 @@ import PyxisVerif.Model.Emit
 namespace PyxisVerif.C07
 open Gen
 
+/-- `<field>_<name>`, built from the identifiers without a raw-identifier prefix (`r#`) -/
+def renamed (base name : String) : String := unraw base ++ "_" ++ unraw name
+
 /-- **the property**, injection clause: re-exposing the public functions `fs` of base field `base` on a
     type whose member names so far are `used`: each keeps its own name, or becomes `<base>_<name>` when
     that name is taken, and forwards to the original on the base field -/
@@ -12,7 +15,7 @@ def specInject (base : String) : List String → List SFunc → List SFunc
   | _, [] => []
   | used, f :: fs =>
     if f.vis == .pub then
-      let name := if used.contains f.name then base ++ "_" ++ f.name else f.name
+      let name := if used.contains f.name then renamed base f.name else f.name
       { f with name := name, body := .field base f.name } :: specInject base (name :: used) fs
     else specInject base used fs
 
@@ -21,7 +24,7 @@ def usedAfter (base : String) : List String → List SFunc → List String
   | used, [] => used
   | used, f :: fs =>
     if f.vis == .pub then
-      usedAfter base ((if used.contains f.name then base ++ "_" ++ f.name else f.name) :: used) fs
+      usedAfter base ((if used.contains f.name then renamed base f.name else f.name) :: used) fs
     else usedAfter base used fs
 
 /-- **the property**, conversion clause: for the list `hier` of (field path, base type) pairs of a type's
